@@ -122,10 +122,11 @@ class AsyncRunner:
 
         while step:
             steps.append(step)
-            step = self.interpreter.execute_once()
 
             if not self._execute_all:
                 break
+
+            step = self.interpreter.execute_once()
 
         return steps
 
